@@ -167,12 +167,15 @@ def getAssetPrice (st : St) (asset : Bytes) : Option Price :=
     | some p => some p
     | none => latestFromAnySource st asset
 
+/-- `LegacyDec.IsInValidRange` of cosmossdk.io/math v1.4.0: |raw| ≤ 2^256·10^18 − 1. -/
+def decInRange (a : Int) : Bool := a.natAbs < 2 ^ 256 * 10 ^ 18
+
 /-- loop of `Pow10`: `value = value.Mul(LegacyNewDec(10))`, with `Mul`'s range panic. -/
 def pow10Loop : Nat → Int → Except Err Int
   | 0, v => .ok v
   | n + 1, v =>
     let v' := Dec.mul v (Dec.ofInt 10)
-    if Dec.inRange v' then pow10Loop n v' else .error .panicOverflow
+    if decInRange v' then pow10Loop n v' else .error .panicOverflow
 
 /-- `Pow10(decimal uint64)`: the loop bound is `int(decimal)`, so a `decimal ≥ 2^63` runs zero times. -/
 def pow10 (decimal : Nat) : Except Err Int :=
